@@ -691,6 +691,7 @@ func checkRankComposites(c *Ctx, r *Rec, cr *collRoles) {
 		}
 		self := c.funcOf(fd)
 		mir := newMirror(info, fd, params[0], params[1])
+		checkSizesDoNotDecideFirst(c, r, cr, fd)
 		// D2: a recursive self call with the operands exchanged; whatever is done with its result up to
 		// the return must map Lesser<->Greater and keep Equal (switch, helper, local: all interpreted)
 		var fg *FG
@@ -1106,4 +1107,146 @@ func checkRankComposites(c *Ctx, r *Rec, cr *collRoles) {
 	r.floor("D8-operand-symmetry", 1)
 	r.floor("D7-lexicographic", 1)
 
+}
+
+// checkSizesDoNotDecideFirst: composite values are ranked lexicographically: the sizes of the
+// operands decide only after every common position ranked Equal (a proper prefix comes first).
+// A return that ranks by a comparison of the two sizes BEFORE any part was ranked - not preceded
+// by a ranking call or by the loop over the parts - is the shortlex order: [3] before [1, 2].
+func checkSizesDoNotDecideFirst(c *Ctx, r *Rec, cr *collRoles, fd *ast.FuncDecl) {
+	info := cr.info
+	construct := c.fdName(fd) + "/size-before-parts"
+	isRankCall := func(call *ast.CallExpr) bool {
+		cf := calleeOf(info, call)
+		if cf == nil || recvNamed(cf) == nil || recvNamed(cf).Origin() != cr.n.Origin() {
+			return false
+		}
+		d := cr.ms[cf.Name()]
+		if d == nil || !cr.returnsRank(c, d) {
+			return false
+		}
+		ps := paramObjs(info, d)
+		return len(ps) == 2 && isNamedFrom(ps[0].Type(), "reflect", "Value")
+	}
+	var isSize func(e ast.Expr, depth int) bool
+	isSize = func(e ast.Expr, depth int) bool {
+		e = ast.Unparen(e)
+		if depth > 3 {
+			return false
+		}
+		if id, ok := e.(*ast.Ident); ok {
+			if init := initOf(info, fd, id); init != nil {
+				return isSize(init, depth+1)
+			}
+			// one of several results of a helper
+			found := false
+			ast.Inspect(fd.Body, func(x ast.Node) bool {
+				if lhs, rhs, ok := multiDef(x); ok && len(lhs) >= 2 {
+					for _, l := range lhs {
+						if identObj(info, l) == info.Uses[id] && isSize(rhs, depth+1) {
+							found = true
+						}
+					}
+				}
+				return true
+			})
+			return found
+		}
+		if call, ok := e.(*ast.CallExpr); ok {
+			if _, mname, _, ok := methodCall(call); ok && (mname == "Len" || mname == "GetSize") {
+				return true
+			}
+			if isBuiltinCall(info, call, "len") {
+				return true
+			}
+			if tv, isT := info.Types[call.Fun]; isT && tv.IsType() && len(call.Args) == 1 {
+				return isSize(call.Args[0], depth+1)
+			}
+			if cf := calleeOf(info, call); cf != nil && !cf.Exported() {
+				if hd := c.declOf(cf); hd != nil && hd.Body != nil && c.infoFor(hd) == info {
+					sizey := false
+					ast.Inspect(hd.Body, func(x ast.Node) bool {
+						if _, mname, mc, ok := methodCall(x); ok {
+							if mname == "Len" || mname == "GetSize" {
+								sizey = true
+							}
+							if mname == "MethodByName" && len(mc.Args) == 1 {
+								if s, ok := constString(info, mc.Args[0]); ok && s == "GetSize" {
+									sizey = true
+								}
+							}
+						}
+						return true
+					})
+					return sizey
+				}
+			}
+		}
+		return false
+	}
+	g := newFG(info, fd.Body)
+	var firstPart ast.Node // the first loop or ranking call of the function, in source order
+	ast.Inspect(fd.Body, func(x ast.Node) bool {
+		if firstPart != nil {
+			return false
+		}
+		switch y := x.(type) {
+		case *ast.ForStmt, *ast.RangeStmt:
+			firstPart = y
+		case *ast.CallExpr:
+			if isRankCall(y) {
+				firstPart = y
+			}
+		}
+		return firstPart == nil
+	})
+	if firstPart == nil {
+		return
+	}
+	bad := ""
+	inspectNoLit(fd.Body, func(x ast.Node) bool {
+		rs, ok := x.(*ast.ReturnStmt)
+		if !ok || bad != "" || rs.Pos() > firstPart.Pos() || len(rs.Results) != 1 {
+			return true
+		}
+		pt, ok := g.locate(rs)
+		if !ok {
+			return true
+		}
+		sizeCond := ""
+		for _, ec := range g.edgeConds(pt) {
+			ast.Inspect(ec.cond, func(y ast.Node) bool {
+				if be, ok := y.(*ast.BinaryExpr); ok {
+					switch be.Op {
+					case token.NEQ, token.LSS, token.GTR, token.LEQ, token.GEQ:
+						if isSize(be.X, 0) && isSize(be.Y, 0) {
+							sizeCond = exprStr(be)
+						}
+					}
+				}
+				return true
+			})
+		}
+		if sizeCond == "" {
+			return true
+		}
+		// what is returned: a rank other than Equal, or a leaf applied to the sizes
+		res := ast.Unparen(rs.Results[0])
+		decides := false
+		if tv, ok := info.Types[res]; ok && tv.Value != nil {
+			if k, ok := constantInt(tv); ok && k != cr.E {
+				decides = true
+			}
+		}
+		if call, ok := res.(*ast.CallExpr); ok && len(call.Args) == 2 && isSize(call.Args[0], 0) && isSize(call.Args[1], 0) {
+			decides = true
+		}
+		if decides {
+			bad = fmt.Sprintf("the return at %s ranks the operands by their sizes (%s) before any of their parts has been ranked: a shorter sequence comes before every longer one ([3] before [1, 2]), which is not the lexicographic order in which a proper prefix comes first and otherwise the first differing part decides", c.pos(rs.Pos()), sizeCond)
+		}
+		return true
+	})
+	if bad != "" {
+		r.fail("D7-lexicographic", construct, c.pos(fd.Pos()), bad)
+	}
 }
